@@ -121,6 +121,14 @@ CAMPAIGNS.update({
                   ph(INPLACE_OPS, False, "same", 3, "r"))],
         thorough=[ex(ph(LAYOUT), ph(["subsample", "collapse", "partition", "merge", "concat", "align_to"], True, "r", 40),
                      ph(INPLACE_OPS, False, "same", 6, "r"))]),
+    "layout_newtable_inplace": model_campaign(
+        # a layout-changing read first (CSC vs CSR decides whether conversions copy), a new-table operation,
+        # then every in-place value/ID mutator on the result: the receiver must not change
+        "layout_newtable_inplace", palettes=IDONLY,
+        quick=[ex(ph(["read"]), ph(["transpose", "copy", "sort_order", "head", "align_to", "sort"], False, "r"),
+                  ph(XFORM + ["filter", "update_ids"], False, "same", 5, "r"))],
+        thorough=[ex(ph(["read"] + REORDER), ph(["transpose", "copy", "sort_order", "head", "align_to", "sort"], False, "r"),
+                     ph(XFORM + ["filter", "update_ids", "add_metadata", "del_metadata"], False, "same", 0, "r"))]),
     "inplace_twins": model_campaign(
         "inplace_twins", palettes=IDONLY,
         quick=[ex(ph(INPLACE_OPS, True, "r", 150)),
@@ -128,7 +136,7 @@ CAMPAIGNS.update({
         thorough=[ex(ph(INPLACE_OPS, True, "r")),
                   ex(ph(LAYOUT), ph(INPLACE_OPS, True, "r", 40))]),
     "equality_routes": model_campaign(
-        "equality_routes", palettes=MOVE_NOADV, heaps="eq",
+        "equality_routes", palettes=MOVE, heaps="eq",
         quick=[ex(ph(["eq"])),
                ex(ph(["read"], True), ph(["eq"])),
                ex(ph(["read"], False, "same", 0, "b"), ph(["eq"])),
@@ -265,6 +273,11 @@ CAMPAIGNS["add_metadata_command"] = model_campaign(
 CAMPAIGNS["recorded_suite"] = {"name": "recorded_suite", "kind": "recorded", "tiers": ["thorough"],
                                "judge": ["BiomRecTrace.tla", "BiomRecTrace.cfg"]}
 
+CAMPAIGNS["subset_wide"] = model_campaign(
+    "subset_wide", palettes=TSVP, heaps="wide",       # more than 8 samples: remapping of larger index sets
+    quick=[ex(ph(["subset_read"], False, "r"))],
+    thorough=[ex(ph(["subset_read"], False, "r")), ex(ph(LAYOUT, pick=6), ph(["subset_read"], False, "r"))])
+
 CAMPAIGNS["err_profile"] = {
     "name": "err_profile", "kind": "err", "judge": ["BiomErrTrace.tla", "BiomErrTrace.cfg"],
     "cfgs": {"quick": [{"depth": 2, "nest": 3, "pick": [0, 0]},
@@ -284,7 +297,7 @@ PROPERTIES = {
     "C04": {"level": "model_checking", "campaigns": [CAMPAIGNS["hdf5_roundtrip"]], "assumptions": []},
     "C02": {"level": "model_checking", "campaigns": [CAMPAIGNS["json_roundtrip"]], "assumptions": []},
     "C03": {"level": "model_checking", "campaigns": [CAMPAIGNS["tsv_roundtrip"]], "assumptions": []},
-    "C14": {"level": "model_checking", "campaigns": [CAMPAIGNS["subset_reads"]], "assumptions": []},
+    "C14": {"level": "model_checking", "campaigns": [CAMPAIGNS["subset_reads"], CAMPAIGNS["subset_wide"]], "assumptions": []},
     "C20": {"level": "model_checking", "campaigns": [CAMPAIGNS["err_profile"]],
             "assumptions": ["kinds obssize/sampsize cannot be tripped in isolation (the duplicate test is also true "
                             "for every size mismatch and is evaluated first), so their reactions are not exercised"]},
@@ -301,7 +314,7 @@ PROPERTIES = {
     "C07": {
         "level": "model_checking",
         "campaigns": [CAMPAIGNS["inplace_twins"], CAMPAIGNS["recorded_suite"], CAMPAIGNS["no_showthrough"], CAMPAIGNS["reorder_full"],
-                      CAMPAIGNS["newtable_frame"]],
+                      CAMPAIGNS["newtable_frame"], CAMPAIGNS["layout_newtable_inplace"]],
         "assumptions": ["copy.deepcopy, scipy toarray and numpy are trusted for the projection"],
     },
     "C13": {
@@ -358,6 +371,16 @@ def run_err_campaign(camp, tier, seed, wd):
                "gen_transitions": sum(g["transitions"] for g in gstats), "traces": len(traces),
                "judge_states": j["states"], "fails": len(j["fails"])}
     return {"summary": summary, "stimuli": stimuli, "traces": traces, "judge": j}
+
+
+# spec-level lemmas (independent of /repo): every table <= 2x3 over 3 values (quick); every table <= 3x3 over
+# 2 values (thorough); C08, whose quantifier names that scope, also takes every table <= 3x3 over 3 values (27 min)
+LEMMAS = [{"module": "MC_Lemmas.tla", "cfg": "MC_Lemmas.cfg", "workers": 8},
+          {"module": "MC_Lemmas.tla", "cfg": "MC_Lemmas_mid.cfg", "workers": 16, "thorough_only": True, "timeout": 3000}]
+for _p in ("C04", "C06", "C09", "C11", "C13"):
+    PROPERTIES[_p]["spec_checks"] = LEMMAS
+PROPERTIES["C08"]["spec_checks"] = LEMMAS + [{"module": "MC_Lemmas.tla", "cfg": "MC_Lemmas_big.cfg", "workers": 16,
+                                               "thorough_only": True, "timeout": 4000}]
 
 
 def run_recorded_campaign(camp, tier, seed, wd):
